@@ -203,7 +203,7 @@ def work(item):
 
 
 def run(ctx):
-    ctx.level = "proof"
+    ctx.level = "other"
     items = []
     maps = list(MAPPINGS) if ctx.tier == "thorough" else list(MAPPINGS)[:3]
     # every coefficient-is-zero test inside the mappings forks the execution: quick keeps to short operand sentences
